@@ -8,6 +8,11 @@
 //! written from the architecture manuals (the interpreter decodes the 32-bit words itself; it shares nothing with
 //! the lifter, and nothing with the little assembler below except the word).
 //! Output: one JSON line per disagreement (at most 3 printed per op key, all counted), then one summary line.
+//! KNOWN DEFECTS: a disagreement is additionally CLASSIFIED against a second, deliberately defective reference model of a
+//! listed known defect (`mips_run(.., late_target = true)`: D3c = jr / jalr read their target register after the delay slot);
+//! it carries the extra field `"known_defect":"D3c"` if and only if the observed state and next pc are exactly what that
+//! defective model yields (and differ from the manual's model). Tagged lines are counted (`tagged_known_defect`) and printed
+//! under their own cap (3 per op and defect); `disagreements` and the per-op counts are the UNTAGGED ones (= violations).
 //! Environment: C02_ONLY=<substring of op key> restricts the run, C02_DEBUG=1 prints the lifted IL of every case to
 //! stderr, C02_PRINT=n overrides the per-op print limit.
 use falcon::architecture;
@@ -245,22 +250,28 @@ fn mips_exec(c: &mut Cpu, w: u32, pc: u32, big: bool) -> Result<Flow, ()> {
     Ok(Flow::Seq)
 }
 
-/// run the words placed at CODE until the pc leaves them; returns the next pc
-fn mips_run(c: &mut Cpu, words: &[u32], big: bool) -> Result<u32, ()> {
+/// run the words placed at CODE until the pc leaves them; returns the next pc.
+/// `late_target` = false: the model of the manual. `late_target` = true: the DELIBERATELY DEFECTIVE reference model of the
+/// listed known defect D3c and of nothing else: `jr rs` / `jalr [rd,] rs` take their target from rs AFTER the delay-slot
+/// instruction has executed (instead of the value rs had when the branch executed); everything else as the manual says
+/// (in particular the link value is still written before the delay slot). Used only to CLASSIFY a disagreement.
+fn mips_run(c: &mut Cpu, words: &[u32], big: bool, late_target: bool) -> Result<u32, ()> {
     let end = CODE + 4 * words.len() as u32;
     let mut pc = CODE;
     let mut n = 0;
     while pc >= CODE && pc < end {
         n += 1;
         if n > 64 { return Err(()); }
-        match mips_exec(c, words[((pc - CODE) / 4) as usize], pc, big)? {
+        let w = words[((pc - CODE) / 4) as usize];
+        match mips_exec(c, w, pc, big)? {
             Flow::Seq => pc += 4,
             Flow::Nullify => pc += 8,
             Flow::Jump(t) => {
                 let dpc = pc + 4;
                 if dpc >= end { return Err(()); }
                 match mips_exec(c, words[((dpc - CODE) / 4) as usize], dpc, big)? { Flow::Seq => {} _ => return Err(()) }
-                pc = t;
+                let register_indirect = (w >> 26) == 0 && ((w & 63) == 0x08 || (w & 63) == 0x09);
+                pc = if late_target && register_indirect { gr(c, ((w >> 21) & 31) as usize) } else { t };
             }
         }
     }
@@ -1045,13 +1056,13 @@ fn selfcheck() -> Result<(), String> {
             c.r[T1 as usize] = 0x5555_5555;
             let (dl, dr) = if big { (0u32, 3u32) } else { (3, 0) };
             let want = mrd(&c, a, 4, big).unwrap();
-            let pc = mips_run(&mut c, &[m_i(0x22, T1, T0, dl), m_i(0x26, T1, T0, dr)], big).map_err(|_| "lwl/lwr model refused".to_string())?;
+            let pc = mips_run(&mut c, &[m_i(0x22, T1, T0, dl), m_i(0x26, T1, T0, dr)], big, false).map_err(|_| "lwl/lwr model refused".to_string())?;
             if c.r[T1 as usize] != want || pc != CODE + 8 { return Err(format!("lwl+lwr big={} k={}: 0x{:x} != 0x{:x}", big, k, c.r[T1 as usize], want)); }
             let mut c = base_state(arch, 0);
             let before = c.mem;
             c.r[T0 as usize] = a;
             c.r[T1 as usize] = 0xa1b2_c3d4;
-            mips_run(&mut c, &[m_i(0x2a, T1, T0, dl), m_i(0x2e, T1, T0, dr)], big).map_err(|_| "swl/swr model refused".to_string())?;
+            mips_run(&mut c, &[m_i(0x2a, T1, T0, dl), m_i(0x2e, T1, T0, dr)], big, false).map_err(|_| "swl/swr model refused".to_string())?;
             let mut want = base_state(arch, 0);
             want.mem = before;
             mwr(&mut want, a, 4, 0xa1b2_c3d4, big).unwrap();
@@ -1069,6 +1080,20 @@ fn selfcheck() -> Result<(), String> {
     Ok(())
 }
 
+/// CLASSIFICATION of a disagreement with the manual's model: Some(id) if and only if the observed final state and next pc are
+/// EXACTLY what the deliberately defective reference model of the listed known defect `id` yields for this input (every
+/// compared location: all GPRs, HI / LO, the memory window, the pc). Only called when the correct model disagrees, so a tag
+/// means `differs from the manual, and differs in precisely the documented way`. Anything else stays untagged = a violation.
+///   D3c: MIPS `jr rs` / `jalr [rd,] rs` read the target register after the delay-slot instruction has executed.
+fn classify(arch: Arch, words: &[u32], st: &Cpu, observed: &State, observed_pc: u32) -> Option<&'static str> {
+    if !arch.is_mips() { return None; }
+    let mut alt = st.clone();
+    match mips_run(&mut alt, words, arch.big(), true) {
+        Ok(alt_pc) => if compare(arch, &alt, alt_pc, observed, observed_pc).is_empty() { Some("D3c") } else { None },
+        Err(()) => None,
+    }
+}
+
 fn main() {
     std::panic::set_hook(Box::new(|_| {}));
     if let Err(e) = selfcheck() { println!("{{\"model_selfcheck_failed\":\"{}\"}}", esc(&e)); std::process::exit(2); }
@@ -1079,7 +1104,10 @@ fn main() {
     let mut rejected_examples: Vec<String> = Vec::new();
     let mut rejected_seen: Vec<String> = Vec::new();
     let mut rejected_ops: BTreeMap<String, u64> = BTreeMap::new();
-    let mut per_op: BTreeMap<String, (u64, u64, u64, u64)> = BTreeMap::new(); // encodings, evaluations, disagreements, printed
+    let mut per_op: BTreeMap<String, (u64, u64, u64, u64)> = BTreeMap::new(); // encodings, evaluations, UNTAGGED disagreements, printed untagged
+    // disagreements classified as instances of a listed known defect: (op key, defect id) -> (count, printed); printed under their OWN cap
+    let mut tagged: BTreeMap<(String, String), (u64, u64)> = BTreeMap::new();
+    let mut tagged_total: BTreeMap<String, u64> = BTreeMap::new();
     let mut printed_asm: std::collections::BTreeSet<(String, String)> = std::collections::BTreeSet::new();
     for arch in [Arch::Mips, Arch::Mipsel, Arch::Ppc] {
         let cases = if arch.is_mips() { mips_cases() } else { ppc_cases() };
@@ -1091,6 +1119,13 @@ fn main() {
             per_op.entry(key.clone()).or_insert((0, 0, 0, 0)).0 += 1;
             let hex: Vec<String> = to_bytes(arch, &case.words).iter().map(|b| format!("{:02x}", b)).collect();
             let hex = hex.join(" ");
+            let line = |st: &Cpu, diffs: &Vec<(String, String, String)>, tag: Option<&str>| -> String {
+                let (w, x, g) = &diffs[0];
+                let also: Vec<String> = diffs.iter().skip(1).take(8).map(|(w, x, g)| format!("\"{}: expected {} got {}\"", esc(w), esc(x), esc(g))).collect();
+                let tagtxt = match tag { Some(d) => format!(",\"known_defect\":\"{}\"", d), None => String::new() };
+                format!("{{\"witness\":true,\"op\":\"{}\",\"arch\":\"{}\",\"bytes\":\"{}\",\"asm\":\"{}\",\"state\":{},\"where\":\"{}\",\"expected\":\"{}\",\"got\":\"{}\",\"also\":[{}]{}}}",
+                    key, arch.key(), hex, esc(&case.asm), state_json(arch, st, &case.show, case.mem), esc(w), esc(x), esc(g), also.join(","), tagtxt)
+            };
             let mut report = |st: &Cpu, diffs: Vec<(String, String, String)>, per_op: &mut BTreeMap<String, (u64, u64, u64, u64)>, found: &mut u64| {
                 *found += 1;
                 let e = per_op.get_mut(&key).unwrap();
@@ -1099,11 +1134,16 @@ fn main() {
                 if e.3 < limit && !printed_asm.contains(&(key.clone(), case.asm.clone())) {
                     printed_asm.insert((key.clone(), case.asm.clone()));
                     e.3 += 1;
-                    let (w, x, g) = &diffs[0];
-                    let also: Vec<String> = diffs.iter().skip(1).take(8).map(|(w, x, g)| format!("\"{}: expected {} got {}\"", esc(w), esc(x), esc(g))).collect();
-                    println!("{{\"witness\":true,\"op\":\"{}\",\"arch\":\"{}\",\"bytes\":\"{}\",\"asm\":\"{}\",\"state\":{},\"where\":\"{}\",\"expected\":\"{}\",\"got\":\"{}\",\"also\":[{}]}}",
-                        key, arch.key(), hex, esc(&case.asm), state_json(arch, st, &case.show, case.mem), esc(w), esc(x), esc(g), also.join(","));
+                    println!("{}", line(st, &diffs, None));
                 }
+            };
+            // a disagreement that IS an instance of a listed known defect (see `classify`): counted and printed apart (own cap of
+            // `limit` lines per op and defect), so that it can never use up the print budget of the untagged ones
+            let mut report_tagged = |st: &Cpu, diffs: Vec<(String, String, String)>, defect: &str, tagged: &mut BTreeMap<(String, String), (u64, u64)>, tagged_total: &mut BTreeMap<String, u64>| {
+                *tagged_total.entry(defect.to_string()).or_insert(0) += 1;
+                let e = tagged.entry((key.clone(), defect.to_string())).or_insert((0, 0));
+                e.0 += 1;
+                if e.1 < limit { e.1 += 1; println!("{}", line(st, &diffs, Some(defect))); }
             };
             if debug { eprintln!("=== {} {} [{}]", key, case.asm, hex); }
             let lifted = catch_unwind(AssertUnwindSafe(|| lift(arch, &case.words, debug)));
@@ -1144,7 +1184,7 @@ fn main() {
             }
             for st in &states {
                 let mut exp = st.clone();
-                let r = if arch.is_mips() { mips_run(&mut exp, &case.words, arch.big()) } else { ppc_run(&mut exp, &case.words) };
+                let r = if arch.is_mips() { mips_run(&mut exp, &case.words, arch.big(), false) } else { ppc_run(&mut exp, &case.words) };
                 let exp_pc = match r { Ok(pc) => pc, Err(()) => { skipped += 1; continue; } };
                 evals += 1;
                 per_op.get_mut(&key).unwrap().1 += 1;
@@ -1152,7 +1192,12 @@ fn main() {
                 match got {
                     Ok(Ok((state, pc))) => {
                         let d = compare(arch, &exp, exp_pc, &state, pc);
-                        if !d.is_empty() { report(st, d, &mut per_op, &mut found); }
+                        if !d.is_empty() {
+                            match classify(arch, &case.words, st, &state, pc) {
+                                Some(defect) => report_tagged(st, d, defect, &mut tagged, &mut tagged_total),
+                                None => report(st, d, &mut per_op, &mut found),
+                            }
+                        }
                     }
                     Ok(Err(e)) => report(st, vec![("execution".to_string(), format!("reaches the landing pad 0x{:x}", exp_pc), e)], &mut per_op, &mut found),
                     Err(_) => report(st, vec![("execution".to_string(), format!("reaches the landing pad 0x{:x}", exp_pc), "panic".to_string())], &mut per_op, &mut found),
@@ -1162,6 +1207,8 @@ fn main() {
     }
     let per: Vec<String> = per_op.iter().map(|(k, v)| format!("\"{}\":{{\"encodings\":{},\"evaluations\":{},\"disagreements\":{}}}", k, v.0, v.1, v.2)).collect();
     let rej: Vec<String> = rejected_ops.iter().map(|(k, v)| format!("\"{}\":{}", k, v)).collect();
-    println!("{{\"summary\":true,\"evaluations\":{},\"encodings\":{},\"disagreements\":{},\"skipped_undefined\":{},\"rejected_encodings\":{},\"rejected_by_op\":{{{}}},\"rejected_examples\":[{}],\"per_op\":{{{}}}}}",
-        evals, encodings, found, skipped, rejected, rej.join(","), rejected_examples.join(","), per.join(","));
+    let tg: Vec<String> = tagged_total.iter().map(|(k, v)| format!("\"{}\":{}", k, v)).collect();
+    let tgo: Vec<String> = tagged.iter().map(|((k, d), v)| format!("\"{}:{}\":{}", d, k, v.0)).collect();
+    println!("{{\"summary\":true,\"evaluations\":{},\"encodings\":{},\"disagreements\":{},\"tagged_known_defect\":{{{}}},\"tagged_by_op\":{{{}}},\"skipped_undefined\":{},\"rejected_encodings\":{},\"rejected_by_op\":{{{}}},\"rejected_examples\":[{}],\"per_op\":{{{}}}}}",
+        evals, encodings, found, tg.join(","), tgo.join(","), skipped, rejected, rej.join(","), rejected_examples.join(","), per.join(","));
 }
